@@ -316,14 +316,18 @@ func DiffTreeContext(ctx context.Context, fromTree, toTree noder.Noder,
 		case bothHaveNodes:
 			var err error
 			switch {
+			// A skipped node takes its counterpart on the other side with it
+			// only if that is the node at the same path: the two iterators
+			// can stand in different directories, where equal base names
+			// mean nothing.
 			case from.Skip():
-				if from.Name() == to.Name() {
+				if from.Compare(to) == 0 {
 					err = ii.nextBoth()
 				} else {
 					err = ii.nextFrom()
 				}
 			case to.Skip():
-				if from.Name() == to.Name() {
+				if from.Compare(to) == 0 {
 					err = ii.nextBoth()
 				} else {
 					err = ii.nextTo()
